@@ -224,6 +224,7 @@ def do_crash(how, where):
 
 _thread_events = {}
 _thread_ledger = []
+_ATEXIT_DONE = {}
 
 
 def _stream(name):
@@ -292,6 +293,19 @@ def run_actions(actions, phase, ctx):
                  if ORIG_STDOUT is not None else None,
                  err_is_orig=(sys.stderr is ORIG_STDERR)
                  if ORIG_STDERR is not None else None)
+        elif do == 'atexit_write':
+            # something that writes to the real stderr when the interpreter
+            # shuts down (atexit hook, logging.shutdown, "Exception ignored
+            # in ...") - i.e. AFTER a layer subprocess has sent its report.
+            # Only in processes the runner itself spawned, never in the
+            # harness process.
+            if '--resume-layer' in sys.argv and \
+                    not _ATEXIT_DONE.get(a.get('text')):
+                import atexit
+                _ATEXIT_DONE[a.get('text')] = True
+                data = a.get('text', 'bye\n').encode('utf-8')
+                atexit.register(lambda: os.write(2, data))
+                emit('atexit.registered', ctx=ctx)
         elif do == 'warn_filter':
             # what a test (or the code it imports) does to the process-wide
             # warnings filters
@@ -559,21 +573,49 @@ class _Ctx:
     pass
 
 
+# how often each test has been executed in this process (tests whose
+# outcome depends on the execution number: kinds_seq)
+EXEC_COUNT = {}
+
+
 def _tspec(self):
-    return self.__class__._v_tests[self._testMethodName]
+    ts = self.__class__._v_tests[self._testMethodName]
+    k = self.__dict__.get('_v_kind')
+    if k is not None and k != ts['kind']:
+        ts = dict(ts, kind=k)
+    return ts
+
+
+def _effective_kind(self, ts, tid):
+    """kinds_seq = [kind of the 1st execution in this process, of the 2nd,
+    ...] (the last entry repeats): a test that fails only the first time,
+    or only from the second --repeat iteration on."""
+    seq = ts.get('kinds_seq')
+    if not seq:
+        return ts['kind']
+    n = EXEC_COUNT.get(tid, 0)
+    EXEC_COUNT[tid] = n + 1
+    kind = seq[min(n, len(seq) - 1)]
+    self._v_kind = kind
+    return kind
 
 
 def _setUp(self):
-    ts = _tspec(self)
+    ts = self.__class__._v_tests[self._testMethodName]
     world = self.__class__._v_world
     tid = self.id()
-    emit('test.setUp', id=tid,
-         out_is_orig=(sys.stdout is ORIG_STDOUT)
-         if ORIG_STDOUT is not None else None)
+    kind = _effective_kind(self, ts, tid)
+    if ts.get('kinds_seq'):
+        emit('test.setUp', id=tid, ek=kind,
+             out_is_orig=(sys.stdout is ORIG_STDOUT)
+             if ORIG_STDOUT is not None else None)
+    else:
+        emit('test.setUp', id=tid,
+             out_is_orig=(sys.stdout is ORIG_STDOUT)
+             if ORIG_STDOUT is not None else None)
     world.point('test.setUp:' + tid)
     self.addCleanup(_cleanup, self)
     run_actions(ts.get('actions'), 'setUp', tid)
-    kind = ts['kind']
     if kind == 'skip_setup':
         self.skipTest('skipped in setUp')
     if kind == 'setup_error':
@@ -610,9 +652,10 @@ def _cleanup(self):
 
 
 def _make_method(ts):
-    kind = ts['kind']
+    static_kind = ts['kind']
 
     def method(self):
+        kind = self.__dict__.get('_v_kind') or static_kind
         tid = self.id()
         world = self.__class__._v_world
         emit('test.body', id=tid,
@@ -651,6 +694,7 @@ def _make_method(ts):
     method.__name__ = ts['name']
     if ts.get('doc'):
         method.__doc__ = ts['doc']
+    kind = static_kind
     if kind == 'skip_deco':
         method = unittest.skip('skipped by decorator')(method)
     if kind in ('xfail', 'uxsuccess'):
